@@ -421,6 +421,59 @@ def check_cycle(rec, kind, steps_seed):
                  repr(exc)[:300])
 
 
+def check_unloadable(rec):
+    """the failure happens while the graph is built: a precedent of the
+    failing cell can not be loaded (linked workbook, missing sheet); cells
+    queued for analysis in the same pass must not suffer"""
+    import itertools
+    for bad_ref, order, first in itertools.product(
+            ('[1]Other!A1', 'NoSuchSheet!A1'),
+            itertools.permutations(['S!D1', 'S!B1', 'S!C1', 'S!E1']),
+            (True, False)):
+        cells = {'A1': 1, 'A2': 2, 'D1': '=A1+A2', 'C1': '=A1*A2',
+                 'B1': ('=C1+' + bad_ref) if first else
+                       ('=' + bad_ref + '+C1'),
+                 'E1': '=SUM(A1:A2)+C1'}
+        case = dict(kind_='unloadable', bad_ref=bad_ref, order=list(order),
+                    first=first)
+        rec.case(key=('unloadable', bad_ref, order, first), nontrivial=True,
+                 labels=('unloadable-precedent',), sample=case)
+        try:
+            model = compile_spec({'sheets': {'S': cells}})
+            for value in (None, 5, -2):
+                if value is not None:
+                    if 'S!A1' not in model.cell_map:
+                        model.evaluate('S!A1')
+                    model.set_value('S!A1', value)
+                vals = dict(cells)
+                if value is not None:
+                    vals['A1'] = value
+                fresh = compile_spec({'sheets': {'S': vals}})
+                for addr in order:
+                    if addr == 'S!B1':
+                        try:
+                            got = model.evaluate(addr)
+                        except Exception:
+                            continue
+                        rec.fail('unloadable:fault-swallowed', case,
+                                 f'evaluate(S!B1) ({cells["B1"]}) = {got!r}')
+                        break
+                    got = models.safe_eval(model, addr)
+                    want = fresh.evaluate(addr)
+                    if not models.same_value(got, want):
+                        rec.fail('unloadable:unrelated-cell-wrong', case,
+                                 f'B1 {cells["B1"]} can not load a precedent;'
+                                 f' order {list(order)}, A1={value!r}: {addr} '
+                                 f'= {got!r}, a fresh model gives {want!r}')
+                        break
+                else:
+                    continue
+                break
+        except Exception as exc:
+            rec.fail(f'unloadable:raises:{exc_key(exc)}', case,
+                     repr(exc)[:300])
+
+
 @st.composite
 def column_specs(draw):
     """workbooks whose formula cells lie INSIDE whole-column / whole-row
@@ -482,6 +535,7 @@ def run_shard(shard, rec):
     if shard['kind'] == 'cycle':
         for kind in ('call1', 'call2', 'call12'):
             check_cycle(rec, kind, 0)
+        check_unloadable(rec)
         return
     # fault sites are enumerated per spec: every formula cell x every kind
     strategy = st.tuples(
@@ -507,6 +561,9 @@ def run_shard(shard, rec):
 
 
 def replay(case, rec):
+    if isinstance(case, dict) and case.get('kind_') == 'unloadable':
+        check_unloadable(rec)
+        return
     if isinstance(case, dict) and case.get('cycle'):
         check_cycle(rec, case['kind_'], 0)
         return
